@@ -33,7 +33,7 @@ RULE = ('a case = one corpus text (window of <= 120 lines) + a generated history
         '>= 6 compared queries with a non-empty answer; distinct by the final text.')
 ASSUMPTIONS = c01.ASSUMPTIONS + ['parso incremental tree == fresh parse is a precondition (checked per step)',
                                  'fresh-process answer set of up to 3 processes is the oracle']
-SIZES = {'quick': 64, 'thorough': 1600}
+SIZES = {'quick': 64, 'thorough': 500}
 TIMEOUT = {'quick': 1800, 'thorough': 6 * 3600}
 METHODS = ['complete', 'infer', 'goto', 'get_references_file', 'get_signatures', 'get_context',
            'get_names', 'help']
